@@ -1196,3 +1196,5 @@ V("C16", "twin-contacts-membership-helper-loop", CTP, "            residue_membe
 V("C16", "contacts-all-starts-at-i-plus-2", CTP, "            for j in range(i + 3, traj.n_residues):", "            for j in range(i + 2, traj.n_residues):", "C16-R5", "compute_contacts")
 V("C16", "contacts-all-ignores-chain", CTP, "                if residue_i.chain == residue_j.chain:\n                    residue_pairs.append((i, j))", "                residue_pairs.append((i, j))", "C16-R5", "compute_contacts")
 V("C16", "contacts-count-uses-first-residue-twice", CTP, "                residue_lens[pair[0]] * residue_lens[pair[1]],", "                residue_lens[pair[0]] * residue_lens[pair[0]],", "C16-R5", "compute_contacts")
+V("C16", "squareform-one-triangle-only", CTP, "    contact_maps[:, residue_pairs[:, 1], residue_pairs[:, 0]] = distances\n", "", "C16-R5", "squareform")
+V("C16", "squareform-size-from-pair-count", CTP, "    n_residues = np.max(residue_pairs) + 1", "    n_residues = len(residue_pairs) + 1", "C16-R5", "squareform")
